@@ -35,6 +35,9 @@ import json
 json.dump({"property":"$PID","applies":False,"base":"$(git -C $REPO log -1 --format=%h)"},open("$D/result.json","w"),indent=1)
 P
   exit 4; fi
+# whatever ends this script (Ctrl-C, TERM, a failing command), the patched tree is put back; a SIGKILL cannot be
+# trapped, which is why the default workspace is a worktree outside /repo and EVAL_IN_PLACE is for one-off demos only
+trap 'git -C $REPO checkout -- . ; git -C $REPO clean -fdq' EXIT INT TERM
 S=$(date +%s)
 OUT=$(cd $ROOT && VERIF_ROOT=$ROOT VERIF_SEED=$SEED ./check $PID quick 2>&1); RC=$?
 E=$(( $(date +%s) - S ))
